@@ -54,6 +54,16 @@ pub fn run(seed: u64, n: usize, out: &mut Out, with_sem: bool, known_defects: u3
             nontrivial,
             key: format!("{i}:{}", c.query_text),
         });
+        if panic_oracle {
+            // does this world meet the static conditions of the C09 theorem (panics only in filter operators)?
+            out.add_info(Case {
+                input: input.clone(),
+                coq: format!("run_np {} {}", crate::irprint::query(&c.indexed.ir_query), crate::irprint::args(&c.args)),
+                imp: String::new(),
+                nontrivial: false,
+                key: format!("np{i}"),
+            });
+        }
         if with_sem {
             // does this world meet the hypotheses of the whole-query refinement theorem (C01.v)?
             out.add_info(Case {
